@@ -401,10 +401,16 @@ func genC08Negates(r *rng, n int, w *bufio.Writer) {
 func c08List(r *rng, dns bool, strict bool) (base, ext []string) {
 	var specs []c08Spec
 	nb := r.n(6)
+	k := 1 + r.n(4)
+	if r.chance(1, 25) {
+		// N2: MANY rules and MANY twin pairs in one list (more than 8 / 16 / 32 / 40 / 64 rules, several $badfilter rules each
+		// of which must disable exactly its own twins)
+		nb = n2Count(r, 1, nil, 8, 70)
+		k = 1 + r.n(1+nb/3)
+	}
 	for i := 0; i < nb; i++ {
 		specs = append(specs, genC08Spec(r, dns))
 	}
-	k := 1 + r.n(4)
 	var xs []c08Spec
 	for i := 0; i < k; i++ {
 		var x c08Spec
